@@ -3,10 +3,9 @@
 design level  : ErrPosMC.tla (window machine of non-seekable input + getContents of seekable input,
                 scaled constants, every read chunking / stream / fault position), ErrPosLemma.tla
                 (ReportAt on run-length encoded texts = getLineByOffset on the expanded contents).
-                The code-level model is FIXRA = TRUE (D9 repaired in /repo, commit 8c982d6), FIXCR = FALSE.
-                TLC must find D13 as a violation of the property on it, must find D9 on the PRE-repair
-                switch (FIXRA = FALSE: negative control of the model only) and must prove the property for
-                the fully repaired model (FIXRA, FIXCR).
+                The code-level model is FIXRA = TRUE (D9 repaired in /repo, commit 8c982d6), FIXCR = TRUE (D13
+                repaired, commit f5ac789): TLC must prove the property for it, and must find D9 / D13 on the
+                PRE-repair switches (FIXRA = FALSE resp. FIXCR = FALSE: negative controls of the model only).
 model -> code : ErrPosGen.tla enumerates query texts (every sequence of <= 3 / 5 symbols of {a, e-acute, hiragana,
                 e+combining, LF, CR, CRLF}; every alignment of multi-byte runes with the two excerpt cuts);
                 faults with an offending byte known by construction (every corruption position of
@@ -697,8 +696,6 @@ def check_cases(rep, work, vh, gojq, cases, tag="t", timeout=900):
         todo.append((c, rec))
         trs.append(trace_record(c, rec))
     cfg = "ErrPosTrace.cfg"
-    if os.environ.get("C17_FIXCR"):            # development: validate a tree that carries a repair of D13
-        cfg = cfg_variant(work, "ErrPosTrace.cfg", {"FIXCR": "TRUE"}, "trace_fixcr.cfg")
     verdicts, stats = vc.validate_sharded(work, trs, "ErrPosTrace.tla", cfg, {}, tag=tag, timeout=timeout, per_shard_min=30)
     rep.add_tlc(stats)
     open_ids = {k["id"] for k in rep.known}
@@ -741,9 +738,8 @@ def check_cases(rep, work, vh, gojq, cases, tag="t", timeout=900):
                 # a genuine, listed defect class: reported only when the entry is open in known_findings.json
                 if fid in open_ids:
                     rep.known_finding(fid, describe(c, rec, v)[:300])
-                else:
-                    bump("unlisted_" + v["v"])
-                continue
+                    continue
+                bump("returned_" + v["v"])      # the class of a REPAIRED finding: it has come back -> violation
             rep.violation(describe(c, rec, v), replay_record(c, rec, v))
     return counters
 
